@@ -293,6 +293,14 @@ theorem isFuncType_some {ty : Ty} {fn : Ty} (hp : ty.isPtr = false) (h : isFuncT
   · exact Or.inr rfl
   · exact Or.inl ⟨rfl, h.symm⟩
 
+/-- the general form: `isFuncType` looks through pointers -/
+theorem isFuncType_some_deref {ty : Ty} {fn : Ty} (h : isFuncType (some ty) = some fn) :
+    ty.deref.kind = .func ∨ ty.deref.kind = .iface := by
+  simp only [isFuncType] at h
+  cases hk : ty.deref.kind <;> rw [hk] at h <;> simp at h
+  · exact Or.inr rfl
+  · exact Or.inl rfl
+
 theorem Ty.kind_map_iff {t : Ty} : t.kind = .map ↔ ∃ k v, t.core = .map k v := by
   unfold Ty.kind
   cases h : t.core <;> simp
